@@ -209,8 +209,11 @@ func ReadBufferBound() {
 	in := protocol.VerifSegmentsIn(p)
 	fedBytes, fed := 0, 0
 	env := func() bool {
-		if protocol.VerifStopped(p) || fedBytes > protocol.VerifMaxReadBufferSize+2*len(filler) {
+		if protocol.VerifStopped(p) {
 			return false
+		}
+		if fedBytes > protocol.VerifMaxReadBufferSize+2*len(filler) {
+			return len(in) > 0 // natively the loop may still be working through queued segments
 		}
 		pay := filler
 		if fed == 0 {
